@@ -235,6 +235,11 @@ payload_plausible(RPFrame *f)
 {
     size_t actualsize = f->payload.size;
     if (BIT_ISSET(f->header.options, RP_OPT_WORD_SIZE_16)) {
+        if ((actualsize % 2u) != 0u) {
+            /* Not a whole number of words: The frame was truncated or
+             * extended by part of a word. */
+            return -EFAULT;
+        }
         actualsize /= 2;
     }
     switch (f->header.type) {
